@@ -31,7 +31,8 @@ var jailSeq int
 
 func NewJail(tag string) *Jail {
 	jailSeq++
-	root := filepath.Join(Base(), fmt.Sprintf("jail-%s-%d-%d", tag, os.Getpid(), jailSeq))
+	// one parent directory per process: concurrent shards do not contend on a shared directory lock
+	root := filepath.Join(Base(), fmt.Sprintf("proc-%d", os.Getpid()), fmt.Sprintf("jail-%s-%d", tag, jailSeq))
 	os.RemoveAll(root)
 	j := &Jail{Root: root, Target: filepath.Join(root, "p", "q", "target")}
 	must(os.MkdirAll(j.Target, 0o755))
@@ -160,4 +161,17 @@ func Populate(dir string, entries map[string]byte) {
 			must(os.WriteFile(p, nil, 0o644))
 		}
 	}
+}
+
+// NoMode drops the permission bits from file entries ("f:<size>").
+func (s Snap) NoMode() Snap {
+	o := Snap{}
+	for k, v := range s {
+		if strings.HasPrefix(v, "f:") {
+			p := strings.SplitN(v, ":", 3)
+			v = "f:" + p[1]
+		}
+		o[k] = v
+	}
+	return o
 }
